@@ -1,8 +1,781 @@
-//! C09 — stub, to be written.
-use corrlib::*;
+//! C09 — gcov report fidelity (intermediate text format and gzip JSON format).
+//! (1) spec oracle on the implementation: `parse_gcov(render ast) = sem ast`,
+//!     `parse_gcov_gz(gzip(render(toJson doc))) = sem doc`, with shrinking;
+//! (2) tie of `parse_gcov` to the Lean model `Gcov.Text.parse` (bytes) and of `parse_gcov_gz` to
+//!     `Gcov.Json.fromReader` (JSON value tree) on well-formed and malformed inputs;
+//! (3) robustness oracle (belongs to C14): no input may panic the reader.
+mod json;
+mod text;
 
-pub fn run(_rep: &mut Report) {}
-pub fn replay(_rep: &mut Report, _case: &serde_json::Value) {}
+use corrlib::lcov::{show_outcome, LAST_PANIC_SITE};
+use corrlib::*;
+use json::J;
+use serde_json::json;
+use std::path::PathBuf;
+
+const F_TEXT_NO_FILE: &str = "C14-gcov-text-no-file";
+const F_JSON_UNWRAP: &str = "C14-gcov-json-unwrap";
+const MODEL: &str = "gm_c09";
+
+struct Ctx {
+    text_path: PathBuf,
+    gz_path: PathBuf,
+}
+impl Ctx {
+    fn new(rep: &Report) -> Ctx {
+        let dir = rep.workdir.join("tmp");
+        std::fs::create_dir_all(&dir).unwrap();
+        Ctx { text_path: dir.join("case.gcov"), gz_path: dir.join("case.gcov.json.gz") }
+    }
+}
+
+/// (canonical outcome, panic site + message when it panicked)
+fn impl_text(ctx: &Ctx, bytes: &[u8]) -> (String, String) {
+    std::fs::write(&ctx.text_path, bytes).unwrap();
+    let p = ctx.text_path.clone();
+    let out = show_outcome(&guarded(move || grcov::parse_gcov(&p)));
+    let site = if out == "panic" { LAST_PANIC_SITE.with(|c| c.borrow().clone()) } else { String::new() };
+    (out, site)
+}
+
+fn impl_gz(ctx: &Ctx, gz: &[u8]) -> (String, String) {
+    std::fs::write(&ctx.gz_path, gz).unwrap();
+    let p = ctx.gz_path.clone();
+    let out = show_outcome(&guarded(move || grcov::parse_gcov_gz(&p)));
+    let site = if out == "panic" { LAST_PANIC_SITE.with(|c| c.borrow().clone()) } else { String::new() };
+    (out, site)
+}
+
+fn text_req(bytes: &[u8]) -> String {
+    format!("gcov.text {}", hex(bytes)).trim_end().to_string()
+}
+fn json_req(tree: Option<&J>) -> String {
+    match tree {
+        None => "gcov.json !".to_string(),
+        Some(j) => {
+            let mut s = String::from("gcov.json ");
+            json::encode(j, &mut s);
+            s
+        }
+    }
+}
+
+// ---------------------------------------------------------------------------------------------
+// named matchers of the robustness findings (call site + failing condition)
+
+/// `parse_gcov` ends with at least one `lcount` read and no `file:` record before it:
+/// `cur_file.unwrap()` on None after the loop
+fn match_text_no_file(bytes: &[u8], out: &str, site: &str) -> bool {
+    if out != "panic" || !site.contains("Option::unwrap()") || !site.contains("parser.rs") {
+        return false;
+    }
+    let mut seen_lcount = false;
+    for l in bytes.split(|&c| c == b'\n') {
+        if l.starts_with(b"file:") {
+            return false;
+        }
+        if l.starts_with(b"lcount:") {
+            seen_lcount = true;
+        }
+    }
+    seen_lcount
+}
+
+/// `parse_gcov_gz`: `serde_json::from_reader(gz).unwrap()` on any gzip, JSON syntax or schema error
+fn match_json_unwrap(out: &str, site: &str) -> bool {
+    out == "panic" && site.contains("Result::unwrap()") && site.contains("parser.rs")
+}
+
+// ---------------------------------------------------------------------------------------------
+// spec oracle, text
+
+fn text_fidelity_fails(ctx: &Ctx, r: &text::Report) -> Option<(String, String)> {
+    let got = impl_text(ctx, &text::render(r)).0;
+    let want = text::sem_text(r);
+    if got != want {
+        Some((got, want))
+    } else {
+        None
+    }
+}
+
+fn text_has_dups(r: &text::Report) -> bool {
+    r.secs.iter().any(|s| {
+        let mut ls = vec![];
+        let mut fs = vec![];
+        for rec in &s.recs {
+            match rec {
+                text::Rec::Lcount(l, _) => {
+                    if ls.contains(&l.val) {
+                        return true;
+                    }
+                    ls.push(l.val)
+                }
+                text::Rec::Function(_, _, n) => {
+                    if fs.contains(&n) {
+                        return true;
+                    }
+                    fs.push(n)
+                }
+                _ => {}
+            }
+        }
+        false
+    })
+}
+
+fn shrink_text(ctx: &Ctx, mut r: text::Report) -> text::Report {
+    loop {
+        let mut progressed = false;
+        let mut i = 0;
+        while i < r.secs.len() {
+            let mut t = r.clone();
+            t.secs.remove(i);
+            if text_fidelity_fails(ctx, &t).is_some() {
+                r = t;
+                progressed = true;
+            } else {
+                i += 1;
+            }
+        }
+        for s in 0..r.secs.len() {
+            let mut j = 0;
+            while j < r.secs[s].recs.len() {
+                let mut t = r.clone();
+                t.secs[s].recs.remove(j);
+                if text_fidelity_fails(ctx, &t).is_some() {
+                    r = t;
+                    progressed = true;
+                } else {
+                    j += 1;
+                }
+            }
+        }
+        if !r.pre.is_empty() {
+            let mut t = r.clone();
+            t.pre.clear();
+            if text_fidelity_fails(ctx, &t).is_some() {
+                r = t;
+                progressed = true;
+            }
+        }
+        if r.eol != 0 || !r.final_newline {
+            let mut t = r.clone();
+            t.eol = 0;
+            t.final_newline = true;
+            if text_fidelity_fails(ctx, &t).is_some() {
+                r = t;
+                progressed = true;
+            }
+        }
+        if !progressed {
+            return r;
+        }
+    }
+}
+
+/// returns true when the oracle failed
+fn check_text_fidelity(rep: &mut Report, ctx: &Ctx, r: &text::Report) -> bool {
+    if text_fidelity_fails(ctx, r).is_none() {
+        return false;
+    }
+    let min = shrink_text(ctx, r.clone());
+    let (got, want) = text_fidelity_fails(ctx, &min).unwrap();
+    let bytes = text::render(&min);
+    rep.fail(
+        "oracle",
+        None,
+        "parse_gcov(render report) != what the records say (minimised)".into(),
+        json!({"op": "gcov.text", "input_hex": hex(&bytes), "input": String::from_utf8_lossy(&bytes),
+               "ast": text::show_report(&min), "impl": got, "spec": want}),
+    );
+    true
+}
+
+// ---------------------------------------------------------------------------------------------
+// spec oracle, JSON
+
+struct JsonCase {
+    tree: J,
+    text: String,
+    gz: Vec<u8>,
+}
+
+fn build_json_case(tree: J, rng: &mut Rng, style: u8) -> JsonCase {
+    let mut text = String::new();
+    json::render(&tree, rng, style, &mut text);
+    // harness self-check: what we wrote is what we say we wrote
+    let v: serde_json::Value = serde_json::from_str(&text)
+        .unwrap_or_else(|e| panic!("harness bug: rendered JSON does not parse: {} in {}", e, text));
+    if !json::reads_back(&tree, &v) {
+        eprintln!("harness self-check failed: JSON text does not read back as the tree sent to the model\n{}", text);
+        std::process::exit(2);
+    }
+    let gz = json::gzip(text.as_bytes());
+    JsonCase { tree, text, gz }
+}
+
+fn json_fidelity_fails(ctx: &Ctx, d: &json::JDoc, seed: u64, shuffle: bool, style: u8) -> Option<(String, String, JsonCase)> {
+    let mut rng = Rng(seed);
+    let tree = json::to_tree(d, &mut rng, shuffle);
+    let case = build_json_case(tree, &mut rng, style);
+    let got = impl_gz(ctx, &case.gz).0;
+    let want = json::sem_json(d);
+    if got != want {
+        Some((got, want, case))
+    } else {
+        None
+    }
+}
+
+fn json_has_dups(d: &json::JDoc) -> bool {
+    d.files.iter().any(|f| {
+        let mut ls = vec![];
+        for l in &f.lines {
+            if ls.contains(&l.line_number) {
+                return true;
+            }
+            ls.push(l.line_number);
+        }
+        let mut ns = vec![];
+        for g in &f.functions {
+            if ns.contains(&&g.demangled_name) {
+                return true;
+            }
+            ns.push(&g.demangled_name);
+        }
+        false
+    })
+}
+
+fn shrink_json(ctx: &Ctx, mut d: json::JDoc, seed: u64, shuffle: bool, style: u8) -> json::JDoc {
+    let fails = |d: &json::JDoc| json_fidelity_fails(ctx, d, seed, shuffle, style).is_some();
+    loop {
+        let mut progressed = false;
+        let mut i = 0;
+        while i < d.files.len() {
+            let mut t = d.clone();
+            t.files.remove(i);
+            if fails(&t) {
+                d = t;
+                progressed = true;
+            } else {
+                i += 1;
+            }
+        }
+        for f in 0..d.files.len() {
+            let mut j = 0;
+            while j < d.files[f].lines.len() {
+                let mut t = d.clone();
+                t.files[f].lines.remove(j);
+                if fails(&t) {
+                    d = t;
+                    progressed = true;
+                    continue;
+                }
+                let mut k = 0;
+                while k < d.files[f].lines[j].branches.len() {
+                    let mut t = d.clone();
+                    t.files[f].lines[j].branches.remove(k);
+                    if fails(&t) {
+                        d = t;
+                        progressed = true;
+                    } else {
+                        k += 1;
+                    }
+                }
+                j += 1;
+            }
+            let mut j = 0;
+            while j < d.files[f].functions.len() {
+                let mut t = d.clone();
+                t.files[f].functions.remove(j);
+                if fails(&t) {
+                    d = t;
+                    progressed = true;
+                } else {
+                    j += 1;
+                }
+            }
+        }
+        if !progressed {
+            return d;
+        }
+    }
+}
+
+fn check_json_fidelity(rep: &mut Report, ctx: &Ctx, d: &json::JDoc, seed: u64, shuffle: bool, style: u8) -> bool {
+    if json_fidelity_fails(ctx, d, seed, shuffle, style).is_none() {
+        return false;
+    }
+    let min = shrink_json(ctx, d.clone(), seed, shuffle, style);
+    let (got, want, case) = json_fidelity_fails(ctx, &min, seed, shuffle, style).unwrap();
+    rep.fail(
+        "oracle",
+        None,
+        "parse_gcov_gz(gzip(json of document)) != what the document says (minimised)".into(),
+        json!({"op": "gcov.json", "gz_hex": hex(&case.gz), "json": case.text, "tree": json_req(Some(&case.tree)),
+               "impl": got, "spec": want}),
+    );
+    true
+}
+
+// ---------------------------------------------------------------------------------------------
+
+struct TieCase {
+    req: String,
+    impl_out: String,
+    site: String,
+    /// text: the input bytes; json: the gz bytes
+    bytes: Vec<u8>,
+    json_text: Option<String>,
+    is_text: bool,
+    oracle_failed: bool,
+}
+
+fn report_panic(rep: &mut Report, c: &TieCase, budget: &mut [u32; 2]) {
+    if c.impl_out != "panic" {
+        return;
+    }
+    if c.is_text {
+        if match_text_no_file(&c.bytes, &c.impl_out, &c.site) {
+            rep.count("robustness.panic.C14-gcov-text-no-file");
+            if budget[0] > 0 {
+                budget[0] -= 1;
+                let min = shrink_text_panic(rep, &c.bytes);
+                rep.fail(
+                    "oracle",
+                    Some(F_TEXT_NO_FILE),
+                    format!("parse_gcov panics (robustness, C14): {}", c.site),
+                    json!({"op": "gcov.text", "input_hex": hex(&min), "input": String::from_utf8_lossy(&min),
+                           "impl": "panic", "site": c.site}),
+                );
+            }
+        } else {
+            rep.count("robustness.panic.unmatched");
+            rep.fail(
+                "oracle",
+                None,
+                format!("parse_gcov panics at an unrecorded site: {}", c.site),
+                json!({"op": "gcov.text", "input_hex": hex(&c.bytes), "input": String::from_utf8_lossy(&c.bytes),
+                       "impl": "panic", "site": c.site}),
+            );
+        }
+    } else if match_json_unwrap(&c.impl_out, &c.site) {
+        rep.count("robustness.panic.C14-gcov-json-unwrap");
+        if budget[1] > 0 {
+            budget[1] -= 1;
+            rep.fail(
+                "oracle",
+                Some(F_JSON_UNWRAP),
+                format!("parse_gcov_gz panics (robustness, C14): {}", truncate(&c.site, 300)),
+                json!({"op": "gcov.json", "gz_hex": hex(&c.bytes), "json": c.json_text,
+                       "tree": c.req.strip_prefix("gcov.json ").unwrap_or("!"), "impl": "panic",
+                       "site": truncate(&c.site, 300)}),
+            );
+        }
+    } else {
+        rep.count("robustness.panic.unmatched");
+        rep.fail(
+            "oracle",
+            None,
+            format!("parse_gcov_gz panics at an unrecorded site: {}", truncate(&c.site, 300)),
+            json!({"op": "gcov.json", "gz_hex": hex(&c.bytes), "json": c.json_text,
+                   "tree": c.req.strip_prefix("gcov.json ").unwrap_or("!"), "impl": "panic"}),
+        );
+    }
+}
+
+fn truncate(s: &str, n: usize) -> String {
+    s.chars().take(n).collect()
+}
+
+/// smallest set of lines that still panics the same way
+fn shrink_text_panic(rep: &Report, bytes: &[u8]) -> Vec<u8> {
+    let ctx = Ctx::new(rep);
+    let mut cur = bytes.to_vec();
+    loop {
+        let lines: Vec<&[u8]> = cur.split_inclusive(|&c| c == b'\n').collect();
+        let mut next = None;
+        for i in 0..lines.len() {
+            let t: Vec<u8> = lines.iter().enumerate().filter(|(j, _)| *j != i).flat_map(|(_, l)| l.iter().cloned()).collect();
+            let (o, s) = impl_text(&ctx, &t);
+            if match_text_no_file(&t, &o, &s) {
+                next = Some(t);
+                break;
+            }
+        }
+        match next {
+            Some(t) => cur = t,
+            None => return cur,
+        }
+    }
+}
+
+fn model_one(rep: &Report, req: &str) -> String {
+    run_model_named(MODEL, &[req.to_string()], &rep.workdir, "one").remove(0)
+}
+
+/// minimise a text input on which model and implementation differ (drop lines, then bytes)
+fn shrink_text_disagreement(rep: &Report, ctx: &Ctx, bytes: &[u8]) -> Vec<u8> {
+    let differs = |b: &[u8]| -> bool {
+        if std::str::from_utf8(b).is_err() {
+            return false;
+        }
+        impl_text(ctx, b).0 != model_one(rep, &text_req(b))
+    };
+    let mut cur = bytes.to_vec();
+    loop {
+        let lines: Vec<&[u8]> = cur.split_inclusive(|&c| c == b'\n').collect();
+        let mut next = None;
+        for i in 0..lines.len() {
+            let t: Vec<u8> = lines.iter().enumerate().filter(|(j, _)| *j != i).flat_map(|(_, l)| l.iter().cloned()).collect();
+            if differs(&t) {
+                next = Some(t);
+                break;
+            }
+        }
+        match next {
+            Some(t) => cur = t,
+            None => break,
+        }
+    }
+    let mut i = 0;
+    let mut budget = 200;
+    while i < cur.len() && budget > 0 {
+        let mut t = cur.clone();
+        t.remove(i);
+        budget -= 1;
+        if differs(&t) {
+            cur = t;
+        } else {
+            i += 1;
+        }
+    }
+    cur
+}
+
+fn tie(rep: &mut Report, ctx: &Ctx, cases: &[TieCase]) {
+    if std::env::var("VERIF_NO_MODEL").is_ok() {
+        return;
+    }
+    let reqs: Vec<String> = cases.iter().map(|c| c.req.clone()).collect();
+    let model = run_model_named(MODEL, &reqs, &rep.workdir, "gcov");
+    let mut shown = 0;
+    for (i, c) in cases.iter().enumerate() {
+        rep.count(&format!(
+            "model.{}.{}",
+            if c.is_text { "text" } else { "json" },
+            model[i].split(' ').take(if model[i].starts_with("err") { 2 } else { 1 }).collect::<Vec<_>>().join("_")
+        ));
+        if model[i] == c.impl_out {
+            continue;
+        }
+        rep.disagreements_checked += 1;
+        if c.oracle_failed || shown >= 20 {
+            // the failing input of this case is already reported by the spec oracle
+            continue;
+        }
+        shown += 1;
+        if c.is_text {
+            let min = shrink_text_disagreement(rep, ctx, &c.bytes);
+            let got = impl_text(ctx, &min).0;
+            let m = model_one(rep, &text_req(&min));
+            rep.fail(
+                "disagreement",
+                None,
+                "parse_gcov differs from the Lean model Gcov.Text.parse (C09 theorems no longer transfer)".into(),
+                json!({"op": "gcov.text", "input_hex": hex(&min), "input": String::from_utf8_lossy(&min),
+                       "impl": got, "model": m}),
+            );
+        } else {
+            rep.fail(
+                "disagreement",
+                None,
+                "parse_gcov_gz differs from the Lean model Gcov.Json.fromReader (C09 theorems no longer transfer)".into(),
+                json!({"op": "gcov.json", "gz_hex": hex(&c.bytes), "json": c.json_text,
+                       "tree": c.req.strip_prefix("gcov.json ").unwrap_or("!"),
+                       "impl": c.impl_out, "model": model[i]}),
+            );
+        }
+    }
+}
+
+/// fixed witnesses: the two robustness defects and a few boundary documents
+fn witnesses_text() -> Vec<(&'static str, Vec<u8>)> {
+    vec![
+        ("lcount_before_any_file", b"lcount:1,1\n".to_vec()),
+        ("function_then_lcount_no_file", b"version:7\nfunction:1,1,f\nlcount:2,0\n".to_vec()),
+        ("lcount_before_file_is_dropped", b"lcount:1,1\nfile:a.c\nlcount:2,3\n".to_vec()),
+        ("count_2^64", b"file:a.c\nlcount:1,18446744073709551616\n".to_vec()),
+        ("count_u64max", b"file:a.c\nlcount:1,18446744073709551615\n".to_vec()),
+        ("negative", b"file:a.c\nlcount:1,-7\nlcount:2,-\n".to_vec()),
+        ("blank_line", b"file:a.c\n\nlcount:1,1\n".to_vec()),
+        ("crlf_and_no_final_newline", b"file:a.c\r\nfunction:3,0,a,b,c\r\nbranch:3,taken\r\nbranch:3,nottaken\r\nlcount:3,+07\r".to_vec()),
+    ]
+}
+
+pub fn run(rep: &mut Report) {
+    rep.rule = "text: reports of 0-6 file sections (shuffled lcount/function/branch/other records; negative, zero, \
+                u64::MAX and >2^64 counts; '+' and leading zeros; names with commas, colons, UTF-8; sections without \
+                lcount; LF/CRLF/mixed line ends; optional final newline) rendered to a .gcov file and read by \
+                parse_gcov; JSON: documents of 0-5 files (integer and exactly representable float counters, absent/null \
+                optional keys, unknown keys, shuffled key order, three whitespace styles) gzip-compressed and read by \
+                parse_gcov_gz; plus malformed streams (token soup, truncation, corruption, token substitution, record \
+                moved before the first file: for text; tree mutations, non-gzip bytes, truncated gzip, broken JSON text: \
+                for JSON). non-trivial = some file has >=1 line and (>=1 branch or >=1 function), or the input is \
+                malformed; distinct = distinct input bytes (text) / distinct JSON text"
+        .to_string();
+    let ctx = Ctx::new(rep);
+    let mut rng = Rng::new(rep.seed ^ 0xC09);
+    let mut cases: Vec<TieCase> = vec![];
+
+    // ---- fixed witnesses ------------------------------------------------------------------------
+    for (name, bytes) in witnesses_text() {
+        let (out, site) = impl_text(&ctx, &bytes);
+        rep.count(&format!("witness.text.{}", name));
+        rep.case(&format!("witness {}", name), true);
+        cases.push(TieCase { req: text_req(&bytes), impl_out: out, site, bytes, json_text: None, is_text: true, oracle_failed: false });
+    }
+    for (name, gz, tree, text) in witnesses_json(&mut rng) {
+        let (out, site) = impl_gz(&ctx, &gz);
+        rep.count(&format!("witness.json.{}", name));
+        rep.case(&format!("witness {}", name), true);
+        cases.push(TieCase { req: json_req(tree.as_ref()), impl_out: out, site, bytes: gz, json_text: text, is_text: false, oracle_failed: false });
+    }
+
+    // ---- text, well-formed ------------------------------------------------------------------
+    let n = rep.budget(3_000, 30);
+    for i in 0..n {
+        let dups = rng.chance(1, 5);
+        let r = text::gen_report(&mut rng, dups);
+        let bytes = text::render(&r);
+        rep.case(&hex(&bytes), text::nontrivial(&r));
+        for f in text::features(&r) {
+            rep.count(&format!("text.{}", f));
+        }
+        let dups = text_has_dups(&r);
+        rep.count(if dups { "text.ast.with_duplicate_keys(tie only)" } else { "text.ast.spec_oracle" });
+        let oracle_failed = if dups { false } else { check_text_fidelity(rep, &ctx, &r) };
+        let (out, site) = impl_text(&ctx, &bytes);
+        rep.count(&format!("text.impl.{}", out.split(' ').take(if out.starts_with("err") { 2 } else { 1 }).collect::<Vec<_>>().join("_")));
+        if i < 1 {
+            rep.sample(json!({"gcov": String::from_utf8_lossy(&bytes), "impl": out, "spec": text::sem_text(&r)}));
+        }
+        cases.push(TieCase { req: text_req(&bytes), impl_out: out, site, bytes, json_text: None, is_text: true, oracle_failed });
+    }
+
+    // ---- text, malformed --------------------------------------------------------------------
+    let m = rep.budget(3_000, 30);
+    for i in 0..m {
+        let bytes = text::gen_malformed(&mut rng);
+        let (out, site) = impl_text(&ctx, &bytes);
+        rep.case(&hex(&bytes), true);
+        rep.count(&format!("text.malformed.{}", out.split(' ').take(if out.starts_with("err") { 2 } else { 1 }).collect::<Vec<_>>().join("_")));
+        if i < 1 {
+            rep.sample(json!({"gcov_malformed": String::from_utf8_lossy(&bytes), "impl": out}));
+        }
+        cases.push(TieCase { req: text_req(&bytes), impl_out: out, site, bytes, json_text: None, is_text: true, oracle_failed: false });
+    }
+
+    // ---- JSON, well-formed ------------------------------------------------------------------
+    let n = rep.budget(1_500, 30);
+    for i in 0..n {
+        let dups = rng.chance(1, 5);
+        let d = json::gen_doc(&mut rng, dups);
+        let seed = rng.next();
+        let shuffle = rng.chance(1, 2);
+        let style = rng.below(3) as u8;
+        let mut r2 = Rng(seed);
+        let tree = json::to_tree(&d, &mut r2, shuffle);
+        let case = build_json_case(tree, &mut r2, style);
+        rep.case(&case.text, json::nontrivial(&d));
+        for f in json::features(&d) {
+            rep.count(&format!("json.{}", f));
+        }
+        rep.count(if shuffle { "json.keys_shuffled" } else { "json.keys_in_gcov_order" });
+        rep.count(&format!("json.whitespace_style_{}", style));
+        let dups = json_has_dups(&d);
+        rep.count(if dups { "json.ast.with_duplicate_keys(tie only)" } else { "json.ast.spec_oracle" });
+        let oracle_failed = if dups { false } else { check_json_fidelity(rep, &ctx, &d, seed, shuffle, style) };
+        let (out, site) = impl_gz(&ctx, &case.gz);
+        rep.count(&format!("json.impl.{}", out.split(' ').next().unwrap()));
+        if i < 1 {
+            rep.sample(json!({"json": case.text, "impl": out, "spec": json::sem_json(&d)}));
+        }
+        cases.push(TieCase { req: json_req(Some(&case.tree)), impl_out: out, site, bytes: case.gz, json_text: Some(case.text), is_text: false, oracle_failed });
+    }
+
+    // ---- JSON, mutated trees ----------------------------------------------------------------
+    let m = rep.budget(2_000, 30);
+    for i in 0..m {
+        let d = json::gen_doc(&mut rng, true);
+        let sh = rng.chance(1, 2);
+        let mut tree = json::to_tree(&d, &mut rng, sh);
+        for _ in 0..rng.range(1, 2) {
+            let what = json::mutate(&mut tree, &mut rng);
+            rep.count(&format!("json.mutation.{}", what));
+        }
+        let case = build_json_case(tree, &mut rng, (i % 3) as u8);
+        let (out, site) = impl_gz(&ctx, &case.gz);
+        rep.case(&case.text, true);
+        rep.count(&format!("json.malformed.{}", out.split(' ').next().unwrap()));
+        if i < 1 {
+            rep.sample(json!({"json_mutated": case.text, "impl": out}));
+        }
+        cases.push(TieCase { req: json_req(Some(&case.tree)), impl_out: out, site, bytes: case.gz, json_text: Some(case.text), is_text: false, oracle_failed: false });
+    }
+
+    // ---- JSON, reader errors (gzip / JSON text level: the trusted layer reports an error) ------
+    let m = rep.budget(200, 10);
+    for _ in 0..m {
+        let d = json::gen_doc(&mut rng, true);
+        let tree = json::to_tree(&d, &mut rng, false);
+        let case = build_json_case(tree, &mut rng, 0);
+        let (kind, gz): (&str, Vec<u8>) = match rng.below(5) {
+            0 => {
+                // not gzip at all: the JSON text under a .gz name
+                ("plain_json_named_gz", case.text.clone().into_bytes())
+            }
+            1 => {
+                let n = rng.below(40) as usize;
+                let mut b: Vec<u8> = (0..n).map(|_| rng.next() as u8).collect();
+                if b.len() >= 2 && b[0] == 0x1f && b[1] == 0x8b {
+                    b[0] = 0;
+                }
+                ("random_bytes", b)
+            }
+            2 => {
+                // gzip stream cut in its first half
+                let k = rng.below(case.gz.len() as u64 / 2 + 1) as usize;
+                ("truncated_gzip", case.gz[..k].to_vec())
+            }
+            3 => {
+                // JSON text cut before its last byte
+                let k = rng.below(case.text.len() as u64) as usize;
+                let mut k = k;
+                while !case.text.is_char_boundary(k) {
+                    k -= 1;
+                }
+                ("truncated_json_text", json::gzip(case.text[..k].as_bytes()))
+            }
+            _ => {
+                let t = format!("{}{}", case.text, rng.pick(&["x", "{}", ",", "]", "1"]));
+                ("trailing_characters", json::gzip(t.as_bytes()))
+            }
+        };
+        let (out, site) = impl_gz(&ctx, &gz);
+        rep.case(&hex(&gz), true);
+        rep.count(&format!("json.reader_error.{}.{}", kind, out.split(' ').next().unwrap()));
+        cases.push(TieCase { req: json_req(None), impl_out: out, site, bytes: gz, json_text: None, is_text: false, oracle_failed: false });
+    }
+
+    // ---- robustness oracle (C14) on every case, then the tie ----------------------------------
+    let mut budget = [3u32, 3u32];
+    for c in &cases {
+        report_panic(rep, c, &mut budget);
+    }
+    tie(rep, &ctx, &cases);
+}
+
+fn witnesses_json(rng: &mut Rng) -> Vec<(&'static str, Vec<u8>, Option<J>, Option<String>)> {
+    let mut out = vec![];
+    out.push(("not_gzip", b"this is not gzip".to_vec(), None, None));
+    out.push(("empty_file", vec![], None, None));
+    let mut add = |name: &'static str, tree: J, rng: &mut Rng| {
+        let c = build_json_case(tree, rng, 0);
+        out.push((name, c.gz, Some(c.tree), Some(c.text)));
+    };
+    add("empty_object", J::Obj(vec![]), rng);
+    let line = |count: J| {
+        J::Obj(vec![
+            ("line_number".into(), J::Num(json::N::Pos(7))),
+            ("count".into(), count),
+            ("unexecuted_block".into(), J::Bool(false)),
+            ("branches".into(), J::Arr(vec![])),
+        ])
+    };
+    let doc = |lines: Vec<J>| {
+        J::Obj(vec![
+            ("format_version".into(), J::Str("1".into())),
+            ("gcc_version".into(), J::Str("9".into())),
+            ("data_file".into(), J::Str("a.gcda".into())),
+            (
+                "files".into(),
+                J::Arr(vec![J::Obj(vec![
+                    ("file".into(), J::Str("a.c".into())),
+                    ("functions".into(), J::Arr(vec![])),
+                    ("lines".into(), J::Arr(lines)),
+                ])]),
+            ),
+        ])
+    };
+    add("minimal_valid", doc(vec![line(J::Num(json::N::Pos(3)))]), rng);
+    add("missing_key_files", J::Obj(vec![
+        ("format_version".into(), J::Str("1".into())),
+        ("gcc_version".into(), J::Str("9".into())),
+        ("data_file".into(), J::Str("a.gcda".into())),
+    ]), rng);
+    add("float_2^64_saturates", doc(vec![line(J::Num(json::N::Flt { text: "1.8446744073709552e19".into(), neg: false, m: 1, e: 64 }))]), rng);
+    add("float_above_2^64", doc(vec![line(J::Num(json::N::Flt { text: "1.8446744073709556e19".into(), neg: false, m: (1 << 52) + 1, e: 12 }))]), rng);
+    add("float_minus_zero", doc(vec![line(J::Num(json::N::Flt { text: "-0.0".into(), neg: true, m: 0, e: 0 }))]), rng);
+    add("negative_count", doc(vec![line(J::Num(json::N::Neg(1)))]), rng);
+    add("float_2.5_truncates", doc(vec![line(J::Num(json::N::Flt { text: "2.5".into(), neg: false, m: 5, e: -1 }))]), rng);
+    add("struct_as_array", J::Arr(vec![
+        J::Str("1".into()), J::Str("9".into()), J::Null, J::Str("d".into()),
+        J::Arr(vec![J::Arr(vec![J::Str("a.c".into()), J::Arr(vec![]),
+            J::Arr(vec![J::Arr(vec![J::Num(json::N::Pos(1)), J::Null, J::Num(json::N::Pos(5)), J::Bool(false), J::Arr(vec![])])])])]),
+    ]), rng);
+    out
+}
+
+pub fn replay(rep: &mut Report, case: &serde_json::Value) {
+    let ctx = Ctx::new(rep);
+    match case["op"].as_str().unwrap_or("") {
+        "gcov.text" => {
+            let bytes = unhex(case["input_hex"].as_str().unwrap());
+            let (got, site) = impl_text(&ctx, &bytes);
+            let model = model_one(rep, &text_req(&bytes));
+            rep.case(&hex(&bytes), true);
+            if let Some(spec) = case["spec"].as_str() {
+                if got != spec {
+                    rep.fail("oracle", None, "parse_gcov(file) != recorded spec outcome".into(), case.clone());
+                    return;
+                }
+            }
+            if got == "panic" {
+                let f = if match_text_no_file(&bytes, &got, &site) { Some(F_TEXT_NO_FILE) } else { None };
+                rep.fail("oracle", f, format!("parse_gcov panics: {}", site), case.clone());
+                return;
+            }
+            if got != model {
+                rep.fail("disagreement", None, format!("parse_gcov = {} but Gcov.Text.parse = {}", got, model), case.clone());
+            }
+        }
+        "gcov.json" => {
+            let gz = unhex(case["gz_hex"].as_str().unwrap());
+            let (got, site) = impl_gz(&ctx, &gz);
+            let tree = case["tree"].as_str().unwrap_or("!");
+            let model = model_one(rep, &format!("gcov.json {}", tree));
+            rep.case(&hex(&gz), true);
+            if let Some(spec) = case["spec"].as_str() {
+                if got != spec {
+                    rep.fail("oracle", None, "parse_gcov_gz(file) != recorded spec outcome".into(), case.clone());
+                    return;
+                }
+            }
+            if got == "panic" {
+                let f = if match_json_unwrap(&got, &site) { Some(F_JSON_UNWRAP) } else { None };
+                rep.fail("oracle", f, format!("parse_gcov_gz panics: {}", truncate(&site, 300)), case.clone());
+                return;
+            }
+            if got != model {
+                rep.fail("disagreement", None, format!("parse_gcov_gz = {} but Gcov.Json.fromReader = {}", got, model), case.clone());
+            }
+        }
+        _ => {}
+    }
+}
 
 fn main() {
     corrlib::run_main("C09", run, replay);
